@@ -217,10 +217,13 @@ func (sfd *StatusFileData) Save(filename string) error {
 		return err
 	}
 	defer sfd.unlockStatusFile(filename, lockFile)
+	verifPoint("save.locked", filename)
 	file, err := os.OpenFile(filename, os.O_CREATE|os.O_WRONLY|os.O_TRUNC, 0o600)
 	if err != nil {
 		return err
 	}
+	verifPoint("save.truncated", filename)
+	verifStatusWrite(filename, "save", false, nil, sfd)
 	err = sfd.saveToFile(file)
 	if err != nil {
 		serr := file.Close()
@@ -231,6 +234,7 @@ func (sfd *StatusFileData) Save(filename string) error {
 
 		return err
 	}
+	verifPoint("save.written", filename)
 
 	return file.Close()
 }
@@ -293,6 +297,7 @@ func (sfd *StatusFileData) UpdateFullStatus(filename string, statusFunc func(*St
 		return err
 	}
 	defer sfd.unlockStatusFile(filename, lockFile)
+	verifPoint("upd.locked", filename)
 	file, err := os.OpenFile(filename, os.O_CREATE|os.O_RDWR, 0o600)
 	if err != nil {
 		return err
@@ -317,7 +322,10 @@ func (sfd *StatusFileData) UpdateFullStatus(filename string, statusFunc func(*St
 			return err
 		}
 	}
+	verifOld := *sfd
+	verifPoint("upd.loaded", filename)
 	statusFunc(sfd)
+	verifStatusWrite(filename, "update", size > 0, &verifOld, sfd)
 	_, err = file.Seek(0, 0)
 	if err != nil {
 		return err
@@ -326,10 +334,12 @@ func (sfd *StatusFileData) UpdateFullStatus(filename string, statusFunc func(*St
 	if err != nil {
 		return err
 	}
+	verifPoint("upd.truncated", filename)
 	err = sfd.saveToFile(file)
 	if err != nil {
 		return err
 	}
+	verifPoint("upd.written", filename)
 
 	return nil
 }
@@ -470,6 +480,7 @@ func (bwu *BaseWorkUnit) Release(force bool) error {
 	bwu.statusLock.Lock()
 	defer bwu.statusLock.Unlock()
 	attemptsLeft := 3
+	verifPoint("release.before_remove", bwu.unitID)
 	for {
 		err := bwu.fs.RemoveAll(bwu.UnitDir())
 		if force {
@@ -490,6 +501,7 @@ func (bwu *BaseWorkUnit) Release(force bool) error {
 
 		break
 	}
+	verifPoint("release.removed", bwu.unitID)
 	bwu.w.activeUnitsLock.Lock()
 	defer bwu.w.activeUnitsLock.Unlock()
 	delete(bwu.w.activeUnits, bwu.unitID)
